@@ -106,7 +106,10 @@ def view (st : St) : String :=
     match AMap.get s.al.aliasTo l with
     | none => ""
     | some c => s!" l{l}:{c}"))
-  head ++ names ++ own ++ cfg ++ fb ++ sn ++ sl ++ s!" bc={s.boCount}" ++ bos ++ ib ++ inn ++ il ++ rs ++ ls
+  let ca := join ";" (s.p.chainAliases.map (fun r =>
+    s!"{r.1}:" ++ (if r.2.isEmpty then "-" else join "," (r.2.map toString))))
+  let ps := s!" pp={s.p.grace},{s.p.soDur},{s.p.minOffer},{s.p.bidInc} ca={ca}"
+  head ++ names ++ own ++ cfg ++ fb ++ sn ++ sl ++ s!" bc={s.boCount}" ++ bos ++ ib ++ inn ++ il ++ rs ++ ls ++ ps
 
 def parseHandle (t : String) : Handle :=
   if t.startsWith "l" then .alias (nat! (dropS t 1)) else .chain (nat! (dropS t 1))
@@ -124,8 +127,19 @@ def boolTok (t : String) : Bool := t = "1"
 
 def chainParams (resv : List Nat) : List (Chain × List AliasId) := [(0, [1000]), (100, [1001]), (101, resv)]
 
+/-- "c>d,c>d" / "c:l,c:l" ("-" = empty) -/
+def parsePairs (sep : String) (t : String) : List (Nat × Nat) :=
+  if t = "-" then [] else (t.splitOn ",").filterMap (fun x =>
+    match x.splitOn sep with
+    | [a, b] => some (nat! a, nat! b)
+    | _ => none)
+
 def parseOp (f : List String) : Option Op :=
   match f with
+  | ["mig", m] => some (.migrateChainIds (parsePairs ">" m))
+  | ["ualias", ad, rm] => some (.updateAliases (parsePairs ":" ad) (parsePairs ":" rm))
+  | ["xferra", a, c, b] => some (.transferRollapp (nat! a) (nat! c) (nat! b))
+  | ["setp", g, d, mo, bi] => some (.setParams (nat! g) (nat! d) (nat! mo) (nat! bi))
   | ["fund", a, amt] => some (.fund (nat! a) (nat! amt))
   | ["adv", dt] => some (.advance (nat! dt))
   | ["trade", n, a] => some (.trading (boolTok n) (boolTok a))
